@@ -10,14 +10,18 @@ SPEC = dict(
                "HIP / ICON) and all coupon counts of list/set mode (exhaustive kernel sweep, <= 196608) the bound functions of hll/estimator.rs and cpc/estimator.rs -- executable model over the four HLL "
                "relative-error tables, both RSE factors, the four CPC side tables and error constants re-read from the source on every "
                "run -- give lb3 <= lb2 <= lb1 <= estimate <= ub1 <= ub2 <= ub3 (f64 comparisons, +infinity on overflow allowed), "
-               "and the HLL intervals tighten as k grows; the CPC hypothesis 'estimate >= number of coupons' is proved for ICON (by "
-               "construction) and for HIP (accumulator += k/kxp >= 1 for any kxp sequence in (0,k], by induction, any stream length "
-               "< 2^53); theta: lower_bound <= estimate <= upper_bound whatever the binomial approximation returns, and in exact mode "
-               "estimate = both bounds = retained count exactly. Tie: the model's functions applied to the crate's own estimate must "
+               "and the HLL intervals tighten as k grows; the CPC hypothesis 'estimate >= number of coupons' is proved for the polynomial branch of ICON (by "
+               "construction; the exponential branch, c > 5.6k/5.7k, needs powf and is checked on every observation by the oracle) and "
+               "for HIP of streamed sketches (accumulator += k/kxp >= 1 for any kxp sequence in (0,k], by induction, any stream length "
+               "< 2^53; for a deserialized sketch the accumulator comes from the image: assumption, checked by the oracle); theta: lower_bound <= estimate <= upper_bound at the level of the sketch accessors for every retained count, every "
+               "theta64 in [1, MAX_THETA], empty or not, whatever the binomial approximation returns, and in exact mode "
+               "estimate = both bounds = retained count exactly; the idealised HIP martingale identities are stated but do not count "
+               "toward the statistical half. Tie: the model's functions applied to the crate's own estimate must "
                "reproduce the crate's six bounds bit-for-bit (function-level hooks over random estimator states, and public-API "
-               "sketches: streamed, deserialized, unions, CpcWrapper, compact/compressed theta), including the crate's ICON polynomial "
+               "sketches: streamed, deserialized, unions incl. HllUnion's own accessors, CpcWrapper with the wrapped image's coupon count and "
+               "merge flag, compact/compressed theta), including the crate's ICON polynomial "
                "estimate, theta estimate and the table-driven binomial branches; and the property itself (ordering, nesting, no NaN, "
-               "empty => 0, exact mode => exact count, offered-but-screened sampling sketch => upper bound > 0) is evaluated on every "
+               "empty => 0, CPC estimate >= coupon count, exact mode => exact count, offered-but-screened sampling sketch => upper bound > 0) is evaluated on every "
                "observation of the crate.",
     level_note="No theorem for the statistical half of C01: absence of bias, the advertised RSE and nominal coverage over random item "
                "sets are statements about empirically fitted constants (composite tables, ICON polynomial, binomial approximations) "
@@ -32,5 +36,8 @@ SPEC = dict(
     trusted=["std's f64::ceil computes the same value as Model/Bounds.fceil (checked bit-for-bit by the tie oracle on every CPC upper bound)",
              "the hooks datasketches::{hll,cpc}::verif_estimator_bounds and verif::theta_binomial_bounds call the crate's own functions",
              "literals of the bound formulas inside function bodies are translated (FLIT_/LIT_ lists) except 1e-5 (written in the model)"],
-    assumptions=["the estimate is finite and >= 0 (checked on every observation)", "CPC: 0 < kxp <= k (invariant of C05's model)"],
+    assumptions=["the estimate is finite and >= 0 (checked on every observation)", "CPC: 0 < kxp <= k (invariant of C05's model)",
+                 "CPC sketches read from an image: estimate >= number of coupons is not proved (the accumulator is image data); "
+                 "checked on every observation",
+                 "Spec/RefTables.v is a snapshot of the pinned tree's tables, not an upstream publication"],
 )
